@@ -361,3 +361,16 @@ example : (Cache.runAll (Text := Nat) (Ty := Nat) (Prog := Nat) (fun t => t + 1)
     (fun p r => (p, r)) (fun (r : Nat) => r % 2) { prog := [], pre := [] } [(1, 4), (1, 6), (1, 5)]).1.prog.length = 2 := by decide
 
 end C06
+
+/-! tie to the source (regenerated on every run from the repository by factsgen): the three textual
+tests of the SELECT router, the tokens of the WHERE lowering of NOT, the operator tables of the
+hand-written evaluator and the `+` test of the bridge's concatenation heuristic -/
+theorem C06.facts_routing :
+    Facts.stream_Stream_compileExpressionInfo_strlits = ["(", ")", ".", "unnest(", "'\"`"] ∧
+    Facts.rsql_lowerLogicalNot_strlits = [")", "NOT", "(", "&&", "||", "!(", "!(", "&&", "||", "(", ")"] ∧
+    Facts.expr_isComparisonOperator_strlits = ["==", "=", "!=", "<>", ">", "<", ">=", "<=", "LIKE", "IS"] ∧
+    Facts.expr_isLogicalOperator_strlits = ["AND", "OR", "NOT"] ∧
+    Facts.expr_evaluateBoolOperator_strlits.take 6 = ["AND", "&&", "OR", "||", "NOT", "!"] ∧
+    Facts.functions_ExprBridge_isStringConcatenationExpression_strlits = ["+", "+", "'", "'", "\"", "\"", "_"] := by
+  decide
+
